@@ -91,7 +91,7 @@ Section Inv.
           destruct (S1 _ _ _ He) as [_ [_ Hs']]. rewrite Hs in Hs'. inversion Hs'; reflexivity.
         + exists (k, o, v). split; [|reflexivity]. unfold MapSub.vis_entries. apply filter_In. split; [|cbn; exact Hv].
           apply filter_In. split; [|cbn; apply Nat.leb_le; exact Ho].
-          apply S2; auto. destruct Hk; auto. eapply state_key_lt; eauto. unfold state in Hs. exact Hs.
+          apply S2; auto. apply (state_key_lt b (top b) k (o, v) HK (le_n _)). exact Hs.
       - intros Hk Hs. unfold m'. apply apply_entries_other. intros e He Hke.
         unfold MapSub.vis_entries in He. apply filter_In in He. destruct He as [He _].
         apply filter_In in He. destruct He as [He Hle]. destruct e as [[k' o'] v']. unfold ekey in Hke; cbn in Hke, Hle. subst k'.
@@ -123,7 +123,7 @@ Section Inv.
           destruct (state_at_entry b (top b) k o v (le_n _) Es) as [Ho1 [Hn _]].
           split; [lia|]. unfold chg. rewrite (nth_error_nth _ _ _ Hn). reflexivity.
       - rewrite (M2 Hk (or_introl eq_refl)), Hnone.
-        destruct (state_at b F k) as [e|] eqn:EF; [|left; reflexivity].
+        destruct (state_at b F k) as [e|] eqn:EF; [|left; unfold vof; rewrite EF; reflexivity].
         right. assert (N : state_at b F k <> state_at b (top b) k) by (unfold state in Es; rewrite EF, Es; discriminate).
         destruct (state_at_diff b (top b) F k HF (le_n _) N) as [o' [c [Ho' [Hn' Hk']]]].
         exists o'. split; [lia|]. unfold chg. rewrite (nth_error_nth _ _ _ Hn'). exact Hk'. }
@@ -131,18 +131,18 @@ Section Inv.
     - intros k. split; [apply Hinv|]. intros Hv. destruct (HP k) as [_ HV]. destruct (HV Hv) as [Hlow Hhigh].
       destruct (Hm' k Hv) as [_ [_ M3]]. split.
       + intros Hk. destruct (le_lt_dec cb k) as [Hge|Hlt].
-        * apply Hcov; auto. subst hi. lia.
+        * apply Hcov; auto; subst hi; lia.
         * rewrite M3 by lia. apply Hlow. exact Hlt.
-      + intros Hk. rewrite M3 by (subst hi; lia). apply Hhigh. specialize (S3 c eq_refl). lia.
+      + intros Hk. rewrite M3 by (subst hi; lia). apply Hhigh. specialize (S3 c eq_refl). destruct S3 as [S3a S3b]. apply (Nat.le_trans _ c); [exact S3a|lia].
     - intros k. split; [apply Hinv|]. intros Hv. destruct (HP k) as [_ HV]. destruct (HV Hv) as [Hlow Hhigh].
       destruct (Hm' k Hv) as [_ [_ M3]].
       destruct (le_lt_dec cb k) as [Hge|Hlt].
       + destruct (le_lt_dec K k) as [HKk|HKk].
         * (* keys >= K never exist *)
           rewrite M3 by (subst hi; lia). rewrite (Hhigh Hge). left.
-          destruct (state_at b F k) as [e|] eqn:EF; [|reflexivity].
+          destruct (state_at b F k) as [e|] eqn:EF; [|unfold vof; rewrite EF; reflexivity].
           exfalso. pose proof (state_key_lt b F k e HK HF EF). lia.
-        * apply Hcov; auto. subst hi. lia.
+        * apply Hcov; auto; subst hi; lia.
       + rewrite M3 by lia. apply Hlow. exact Hlt.
   Qed.
 End Inv.
